@@ -1674,9 +1674,10 @@ pub fn run(tier: Tier) -> i32 {
 
     // quick: full alphabet d<=5 on the two extreme configurations, d<=4 on five more (other
     // retry/cap mixes, ignore_naks, back-pressure, cap 600), singles-only alphabet d<=6 (d<=5
-    // with back-pressure); thorough: the full 2x2x2 configuration cube (d<=7; d<=6 with
-    // ignore_naks), singles-only d<=9, back-pressure d<=6 (singles d<=8), caps 600/300 d<=6.
-    // (The IP-source dimension multiplies the bound states by the four possible server addresses.)
+    // with back-pressure); thorough: the full 2x2x2 configuration cube (d<=6; d<=5 with
+    // ignore_naks), singles-only d<=8, back-pressure d<=5 (singles d<=7), caps 600/300 d<=5.
+    // (The IP-source dimension multiplies the bound states by the four possible server addresses,
+    // the optional-ACK variants add an "order/attempt clauses dropped" copy of every lease state.)
     let mut cfgs: Vec<(Cfg, usize)> = vec![];
     if tier == Tier::Quick {
         cfgs.push((Cfg { retry_short: false, max_lease: None, ignore_naks: false, alpha: 0, bp: false }, 5));
@@ -1694,19 +1695,19 @@ pub fn run(tier: Tier) -> i32 {
         for ignore_naks in [false, true] {
             for retry_short in [false, true] {
                 for max_lease in [None, Some(30)] {
-                                        cfgs.push((Cfg { retry_short, max_lease, ignore_naks, alpha: 0, bp: false }, if ignore_naks { 6 } else { 7 }));
+                                        cfgs.push((Cfg { retry_short, max_lease, ignore_naks, alpha: 0, bp: false }, if ignore_naks { 5 } else { 6 }));
                 }
             }
         }
-        cfgs.push((Cfg { retry_short: false, max_lease: None, ignore_naks: false, alpha: 1, bp: false }, 9));
-        cfgs.push((Cfg { retry_short: true, max_lease: Some(30), ignore_naks: false, alpha: 1, bp: false }, 9));
+        cfgs.push((Cfg { retry_short: false, max_lease: None, ignore_naks: false, alpha: 1, bp: false }, 8));
+        cfgs.push((Cfg { retry_short: true, max_lease: Some(30), ignore_naks: false, alpha: 1, bp: false }, 8));
         // device back-pressure as an extra event dimension
-        cfgs.push((Cfg { retry_short: false, max_lease: None, ignore_naks: false, alpha: 0, bp: true }, 6));
-        cfgs.push((Cfg { retry_short: true, max_lease: Some(30), ignore_naks: false, alpha: 0, bp: true }, 6));
-        cfgs.push((Cfg { retry_short: false, max_lease: None, ignore_naks: true, alpha: 1, bp: true }, 8));
+        cfgs.push((Cfg { retry_short: false, max_lease: None, ignore_naks: false, alpha: 0, bp: true }, 5));
+        cfgs.push((Cfg { retry_short: true, max_lease: Some(30), ignore_naks: false, alpha: 0, bp: true }, 5));
+        cfgs.push((Cfg { retry_short: false, max_lease: None, ignore_naks: true, alpha: 1, bp: true }, 7));
         // caps long enough for the strong renew-and-rebind clause to be judged on capped leases
-        cfgs.push((Cfg { retry_short: false, max_lease: Some(600), ignore_naks: false, alpha: 0, bp: false }, 6));
-        cfgs.push((Cfg { retry_short: true, max_lease: Some(300), ignore_naks: false, alpha: 0, bp: false }, 6));
+        cfgs.push((Cfg { retry_short: false, max_lease: Some(600), ignore_naks: false, alpha: 0, bp: false }, 5));
+        cfgs.push((Cfg { retry_short: true, max_lease: Some(300), ignore_naks: false, alpha: 0, bp: false }, 5));
     }
     let lim = Limits::default();
     let mut per_cfg = vec![];
